@@ -8,7 +8,7 @@ from typing import Dict, List, Tuple
 
 from ..framework import Check
 from ..defs_common import FAM, native_names, regen_or_report
-from ..defs_emit_common import (COQ_HEADER, DIFF_NAMES, F, build_corpus, closure_case, closure_files, closure_model_ok, coq_case,
+from ..defs_emit_common import (COQ_HEADER, DIFF_NAMES, F, build_corpus, closure_case, long_name_closures, substring_name_closures, closure_files, closure_model_ok, coq_case,
                                 construct_classes, cross_language_check, diagnose, observation, run_emit, source_classes)
 
 THEOREMS = ["C04_tables", "C04_tables_sweep", "C04_tables_domain", "C04_sig", "C04_layout", "C04_len0_rejected",
@@ -105,6 +105,8 @@ def extra_closures(natives: List[str]) -> List[dict]:
         for core in (True, False):
             out.append(dict(tag="core-name-clash:" + ("core-imported" if core else "standalone"),
                             cl=dict(files=[dict(path="root.yaml", imports=[], items=list(items))], auto_pad=True, import_coredefs=core), coq=False))
+    out += long_name_closures()          # names of 40..50 characters: every macro the C preprocessor sees, against the other outputs
+    out += substring_name_closures()     # constants named like parts of other constants, in one expression
     # a name that BEGINS with the section prefix: still stripped by generate_field (kept by 689365a), open finding
     out.append(dict(tag="matlab-leading-prefix-in-name", cl=dict(files=[dict(path="root.yaml", imports=[], items=[
         ("msg", "MT_Y", 701, F(("a", "int32", None))), ("mid", "MID_B", 34), ("hid", "HID_D", 5)])],
